@@ -46,5 +46,12 @@ TMoved ==
   /\ Chk("no_undefined_ratio_on_a_regular_target", Hdr.regular => Ev.code = 0)
   /\ Step
 
-TNext == TRW \/ TIWLS \/ TIWLSBig \/ TMH \/ TMoved
+\* the accept / reject decisions of the random-walk kernel are those of a uniform draw from the sub-key that did not
+\* draw the proposal (proposal and acceptance use independent randomness)
+TRWKeys ==
+  /\ IsEvent("rw_keys")
+  /\ Chk("acceptance_draw_is_independent_of_the_proposal_draw", Ev.explained_by_other_subkey = Ev.inner)
+  /\ Step
+
+TNext == TRWKeys \/ TRW \/ TIWLS \/ TIWLSBig \/ TMH \/ TMoved
 =============================================================================
